@@ -2,6 +2,7 @@ CONSTANTS
   Tier = "quick"
   CasesFile = "cases.ndjson"
   SwResetCanCatchField = TRUE
+  SwResetCanCatchElem = TRUE
   SwResetExitFieldP = TRUE
   SwResetExitFieldV = TRUE
   SwResetExitElemP = TRUE
